@@ -136,7 +136,7 @@ structure DStep where
 the target blade `currentRouter = &routers_[group * (C*B) + blade]`, i.e. chassis 0); `true` = fixed code (keeps
 `currentRouter->chassis_`).  When the fix is applied to /repo set this to `true`; `dragonfly_same_group_counterexample`
 then has to be replaced by the connectivity theorem. -/
-abbrev dfGreenKeepsChassis : Bool := false
+abbrev dfGreenKeepsChassis : Bool := true
 
 /-- the `if (targetRouter != myRouter) { ... }` block, on router numbers, verbatim:
 ```
